@@ -210,6 +210,12 @@ func (e InvalidRuleError) Error() string {
 }
 
 func (r Rule) Apply(facts *FactSet, newFacts *FactSet, syms *SymbolTable) error {
+	return r.apply(nil, facts, newFacts, syms)
+}
+
+// apply is Apply with a cancellation channel: once it is closed the join is
+// abandoned and ErrWorldRunLimitTimeout is returned.
+func (r Rule) apply(cancel <-chan struct{}, facts *FactSet, newFacts *FactSet, syms *SymbolTable) error {
 	// extract all variables from the rule body
 	variables := make(MatchedVariables)
 	for _, predicate := range r.Body {
@@ -222,14 +228,32 @@ func (r Rule) Apply(facts *FactSet, newFacts *FactSet, syms *SymbolTable) error 
 		}
 	}
 
-	// closed when Apply returns, so that the producer goroutine never stays
-	// blocked on a send nobody will receive
+	// closed when apply returns: the producer goroutine polls it at every step.
+	// apply does not return before the producer has exited, because the producer
+	// reads the facts and reads and extends the symbol table
 	stop := make(chan struct{})
-	defer close(stop)
-
 	combinations := combine(variables, r.Body, r.Expressions, facts, syms, stop)
+	defer func() {
+		close(stop)
+		for range combinations {
+		}
+	}()
 
-	for res := range combinations {
+	for {
+		var res struct {
+			MatchedVariables
+			error
+		}
+		select {
+		case <-cancel:
+			return ErrWorldRunLimitTimeout
+		case next, ok := <-combinations:
+			if !ok {
+				return nil
+			}
+			res = next
+		}
+
 		if res.error != nil {
 			return res.error
 		}
@@ -249,8 +273,6 @@ func (r Rule) Apply(facts *FactSet, newFacts *FactSet, syms *SymbolTable) error 
 		}
 		newFacts.Insert(Fact{predicate})
 	}
-
-	return nil
 }
 
 type Check struct {
@@ -381,19 +403,28 @@ func (w *World) Run(syms *SymbolTable) error {
 		for i := 0; i < w.runLimits.maxIterations; i++ {
 			select {
 			case <-ctx.Done():
+				done <- ErrWorldRunLimitTimeout
 				return
 			default:
 				var newFacts FactSet
 				for _, r := range w.rules {
 					select {
 					case <-ctx.Done():
+						done <- ErrWorldRunLimitTimeout
 						return
 					default:
-						if err := r.Apply(w.facts, &newFacts, syms); err != nil {
+						if err := r.apply(ctx.Done(), w.facts, &newFacts, syms); err != nil {
 							done <- err
 							return
 						}
 					}
+				}
+
+				// the deadline passed while the last rule was applied: the
+				// caller gets a timeout, the world must not change any more
+				if ctx.Err() != nil {
+					done <- ErrWorldRunLimitTimeout
+					return
 				}
 
 				prevCount := len(*w.facts)
@@ -417,6 +448,9 @@ func (w *World) Run(syms *SymbolTable) error {
 
 	select {
 	case <-ctx.Done():
+		// the worker notices the deadline at its next step; wait for it, so
+		// that nothing touches the world after Run has returned
+		<-done
 		return ErrWorldRunLimitTimeout
 	case err := <-done:
 		return err
@@ -529,6 +563,13 @@ func combine(variables MatchedVariables, predicates []Predicate, expressions []E
 
 		// main loop
 		for {
+			// the consumer is gone: abandon the search
+			select {
+			case <-stop:
+				return
+			default:
+			}
+
 			if len(predicates) > 0 && len(*facts) > 0 {
 				// look for the next matching set of facts
 				// current indicates which predicate we are looking at, and indexes contains
